@@ -21,7 +21,7 @@
 (*   [k|->"any"]                                                           *)
 (*   [k|->"coll",c,e]   c \in {"list","set","fset","vtuple","seq"}         *)
 (*   [k|->"tuple",es] [k|->"map",kt,vt] [k|->"union",alts]                 *)
-(*   [k|->"lit",vals : Seq(primitive datum)] [k|->"enum",cls]              *)
+(*   [k|->"lit",vals : Seq(primitive datum), mem] [k|->"enum",cls]         *)
 (*   [k|->"newtype",name,sup] [k|->"annot",t,cons] [k|->"obj",cls]         *)
 (*   [k|->"dunion",alts,alias,keys]   Annotated[Union[..], discriminator]  *)
 (* Constraints: Seq(<<name, value>>) (numeric bounds in halves).           *)
@@ -38,7 +38,11 @@ TColl(c, e)    == [k |-> "coll", c |-> c, e |-> e]
 TTuple(es)     == [k |-> "tuple", es |-> es]
 TMap(kt, vt)   == [k |-> "map", kt |-> kt, vt |-> vt]
 TUnion(alts)   == [k |-> "union", alts |-> alts]
-TLit(vals)     == [k |-> "lit", vals |-> vals]
+TLit(vals)     == [k |-> "lit", vals |-> vals, mem |-> <<>>]
+\* a Literal some of whose values are MEMBERS of an Enum: vals[i] is the member's value (the datum), mem[i] the
+\* member (VEnum) or [k |-> "none"] for a primitive value; the typed image of vals[i] is LitImg(T, i)
+TLitM(vals, mem) == [k |-> "lit", vals |-> vals, mem |-> mem]
+LitImg(T, i)   == IF i \in DOMAIN T.mem /\ T.mem[i].k = "enum" THEN T.mem[i] ELSE T.vals[i]
 TEnum(c)       == [k |-> "enum", cls |-> c]
 TNew(n, s)     == [k |-> "newtype", name |-> n, sup |-> s]
 TAnnot(t, c)   == [k |-> "annot", t |-> t, cons |-> c]
@@ -489,7 +493,7 @@ RD(ctx, T, cons, d) ==
             ELSE BadX(UNION {r[i].e : i \in DOMAIN r}, UNION {XOf(r[i]) : i \in DOMAIN r})
     [] T.k = "lit"     ->
          LET i == RLitIdx(ctx, T.vals, d) IN
-           IF i > 0 THEN Ok(T.vals[i]) ELSE IF i = 0 THEN LitBad(ctx, T.vals, d) ELSE Unspecified
+           IF i > 0 THEN Ok(LitImg(T, i)) ELSE IF i = 0 THEN LitBad(ctx, T.vals, d) ELSE Unspecified
     [] T.k = "enum"    ->
          LET ms   == ctx.En[T.cls]
              vals == [i \in DOMAIN ms |-> ms[i][2]]
